@@ -250,6 +250,13 @@ func runC06(e *Env) {
 	}
 	e.R.AddPart(ev.Part{Name: "cli-histories", Enumerated: "real binary: histories of length <= 2 x N in {1,2,3,5,32}; --track 0 and -1 must be refused", Executions: int64(len(cj) + 2), Exhaustive: true})
 
+	runLong(e, 16, func(c *playCase) {
+		for _, n := range []int{2, 3, 16} {
+			cc := *c
+			cc.Cfg.Tracks = n
+			c06Eval(e, m, &cc, true)
+		}
+	})
 	depth := 5
 	if e.Thorough {
 		depth = 6
